@@ -256,3 +256,33 @@ func VerifC06_WRRRecovered() {
 	}
 	verif.Cover("end")
 }
+
+// VerifC06_EdfEntryOrder: the heap's ordering function at small and at large
+// virtual times. Deadlines are concrete (no float theory): T + 1/w for a
+// catalogue of virtual times T up to 1e12 and weight pairs (127,128), (64,127),
+// (3,5), (1,128) - at large T the two deadlines differ in their last few bits
+// only. Queue times are arbitrary 64-bit values. The entry with the strictly
+// smaller deadline is always first, whatever the queue times; only exactly
+// equal deadlines are ordered by queue time.
+func VerifC06_EdfEntryOrder() {
+	ts := []float64{0, 1, 1e3, 2e5, 1e7, 1e9, 1e12}
+	ws := [][2]float64{{127, 128}, {64, 127}, {3, 5}, {1, 128}}
+	t := ts[verif.Choose("virtual_time", len(ts))]
+	w := ws[verif.Choose("weights", len(ws))]
+	a := &edfEntry{deadline: t + 1/w[0], queuedTime: int64(verif.U64("queued_a"))}
+	b := &edfEntry{deadline: t + 1/w[1], queuedTime: int64(verif.U64("queued_b"))}
+	switch {
+	case a.deadline < b.deadline:
+		verif.Assert(edfEntryLess(a, b) && !edfEntryLess(b, a), "the entry with the strictly earlier deadline is not ordered first")
+		verif.Cover("distinct")
+	case a.deadline > b.deadline:
+		verif.Assert(edfEntryLess(b, a) && !edfEntryLess(a, b), "the entry with the strictly earlier deadline is not ordered first")
+		verif.Cover("distinct")
+	default:
+		// the float sum absorbed the difference: a genuine tie, ordered by age
+		verif.Assert(edfEntryLess(a, b) == (a.queuedTime < b.queuedTime), "entries with equal deadlines are not ordered by queue time")
+	}
+	c := &edfEntry{deadline: a.deadline, queuedTime: int64(verif.U64("queued_c"))}
+	verif.Assert(edfEntryLess(a, c) == (a.queuedTime < c.queuedTime), "entries with equal deadlines are not ordered by queue time")
+	verif.Cover("end")
+}
